@@ -223,11 +223,20 @@ Hypothesis Hs : Nlen bs < U64.
 Lemma write_accepted : bw_write fp o sizes inp = Ok bs \/ bw_write_multipass fp o sizes inp = Ok bs ->
   forall c vs, In (c, vs) (runs inp) -> exists len, lookup c sizes = Some len /\ wf_vals len vs /\ vs <> [].
 Proof.
-  intros [H|H] c vs Hin; destruct Hi as (Hnd & _).
+  intros [H|H] c vs Hin.
   - destruct (bw_write_inv _ _ _ _ _ H) as (ids & outs & sum & data & zooms & Hcol & _).
-    exact (collect_accepted _ _ _ _ _ _ _ _ c vs Hcol Hnd Hin).
+    exact (collect_accepted _ _ _ _ _ _ _ _ c vs Hcol Hin).
   - destruct (bw_write_multipass_inv _ _ _ _ _ H) as (ids & outs & sum & data & Hcol & _).
-    exact (collect_accepted _ _ _ _ _ _ _ _ c vs Hcol Hnd Hin).
+    exact (collect_accepted _ _ _ _ _ _ _ _ c vs Hcol Hin).
+Qed.
+
+(* an accepted input has one run per chromosome *)
+Lemma write_grouped : bw_write fp o sizes inp = Ok bs \/ bw_write_multipass fp o sizes inp = Ok bs ->
+  NoDup (map fst (runs inp)).
+Proof.
+  intros [H|H].
+  - destruct (bw_write_inv _ _ _ _ _ H) as (ids & outs & sum & data & zooms & Hcol & _). exact (collect_grouped _ _ _ _ _ Hcol).
+  - destruct (bw_write_multipass_inv _ _ _ _ _ H) as (ids & outs & sum & data & Hcol & _). exact (collect_grouped _ _ _ _ _ Hcol).
 Qed.
 
 Lemma write_roundtrip_for : bw_write fp o sizes inp = Ok bs \/ bw_write_multipass fp o sizes inp = Ok bs ->
